@@ -7,7 +7,7 @@ from rtc import dag, progs
 from vf.bounded import Check
 
 ID = "C02"
-LEVEL = "exploration"
+LEVEL = "other"
 LEVEL_TEXT = ("Bounded contract checking of the statement on the real Pipeline: for generated DAGs (nullary and "
               "tuple-output functions, shared parameters, defaults, bound values, renames), every listing order, every "
               "output and every argument combination listed by arg_combinations, pipeline(...), run and func(...) must "
@@ -27,11 +27,26 @@ ASSUMPTIONS = ["user functions deterministic", "values compared as strings"]
 
 
 def registry():
-    return {}
+    from contracts import misc
+    return {c.short: c for c in misc.ALL}
+
+
+def _alt_gen(rng, tier):
+    for x in ("a", "", ("a",), ("a", "b"), ()):
+        yield {"x": x}
+
+
+def _dop_gen(rng, tier):
+    for names in [("a", "b"), ("a", "b", "c"), ("b", "a"), ("a", "a")]:
+        for name in ("a", "b", "c"):
+            for extra in (0, 1):
+                yield {"output": tuple(f"v{i}" for i in range(len(names) + extra)), "name": name, "output_name": names}
 
 
 def proof_items():
-    return []
+    from contracts import misc
+    from vf.driver import ProofItem
+    return [ProofItem(misc.at_least_tuple, gen=_alt_gen), ProofItem(misc.default_output_picker, gen=_dop_gen)]
 
 
 def _cases(tier, rng):
